@@ -16,6 +16,7 @@ static thread_local bool g_abort_flag = false;
 #include "trace.hpp"
 
 #include <algorithm>
+#include <array>
 #include <cstring>
 #include <limits>
 #include <random>
@@ -384,6 +385,49 @@ static void cross_tests(std::mt19937_64& rng)
       ra.flush();
     }
   };
+  // (d') a raw application array of ANOTHER element type stored into an array in sandbox
+  //      memory (element-wise conversion; a bytewise copy is only right for identical encodings)
+  auto store_raw_array = [&](auto tag_app, auto tag_rhs) {
+    using T = decltype(tag_app);
+    using U = decltype(tag_rhs);
+    using G = typename GuestOf<Abi>::template t<T>;
+    auto pa = sb.template malloc_in_sandbox<T[3]>();
+    G* rawa = reinterpret_cast<G*>(pa.UNSAFE_unverified());
+    for (int form = 0; form < 2; form++) {
+      RunEmitter ra;
+      ra.path = std::string(form == 0 ? "store-raw-array/" : "store-std-array/") + abi;
+      ra.from = tdesc<U>();
+      ra.to = tdesc<G>();
+      for (W x : sparse_values<U, G>(rng, 8)) {
+        rawa[0] = rawa[1] = rawa[2] = (G)0x55;
+        g_abort_flag = false;
+        if (form == 0) {
+          U ua[3] = { (U)1, (U)x, (U)0 };
+          *pa = ua;
+        } else {
+          std::array<U, 3> ua = { (U)1, (U)x, (U)0 };
+          *pa = ua;
+        }
+        int c = g_abort_flag ? 1 : ((W)rawa[1] == x && (W)rawa[0] == 1 && (W)rawa[2] == 0) ? 0 : 2;
+        ra.add(x, c, (W)rawa[1]);
+      }
+      ra.flush();
+    }
+  };
+  store_raw_array(bool{}, (unsigned char)0);
+  store_raw_array(bool{}, char{});
+  store_raw_array(bool{}, (signed char)0);
+  store_raw_array(bool{}, int{});
+  store_raw_array((unsigned char)0, bool{});
+  store_raw_array(char{}, (unsigned char)0);
+  store_raw_array((unsigned char)0, (signed char)0);
+  store_raw_array(short{}, (unsigned short)0);
+  store_raw_array(int{}, unsigned{});
+  store_raw_array(int{}, long{});
+  store_raw_array(long{}, (long long)0);
+  store_raw_array((unsigned long)0, long{});
+  store_raw_array(char16_t{}, short{});
+
   auto for_rhs = [&](auto tag_app) {
     (store_load(tag_app, bool{}), store_load(tag_app, char{}), store_load(tag_app, (signed char)0),
      store_load(tag_app, (unsigned char)0), store_load(tag_app, short{}), store_load(tag_app, (unsigned short)0),
